@@ -15,6 +15,11 @@ CHECKS = {
    technique="TLC-generated histories of the Pin contract replayed on the real library + TLC trace validation",
    text="TLC enumerates every history of the Pin contract (up to three option calls in any order with every combination of matching/non-matching type, digest-string facts and length, followed by lead-only validation, lead read and header read) and checks AcceptedImpliesEqual on it; each history is concretised on files of all four overall checksum types (plus a file whose header body no longer matches its checksum) and executed through the public API, together with the sweep of all 256 byte values at four position classes of the digest string. The recorded trace, with the digest-string facts (exact length, hex-only, equal by value) computed independently, is accepted only if TLC can replay it through Trace_Pin: accept iff equal, digest-string rule, validate_lead consumes nothing.",
    note="Trusted: TLC, Pin.tla, the reference writer/parser (verif/ref.py) that produces the files and their stored values. Not decided: option sequences longer than three calls before the lead is read."),
+ "C10": dict(
+   category="model_checking", design_ref="DESIGN.md section 6, C10",
+   technique="TLC model checking of range.c transcribed into TLA+ against the Range contract + TLC trace validation of real zck_get_missing_range/zck_get_range_char results",
+   text="TLC exhausts RangeImpl (range_add with its three cases, range_merge_combined, the limit test, the range index, and the renderer with a tiny buffer, x1.5 growth and snprintf truncation) on every table of up to 5 chunks with sizes {0,1,2}, every validity vector, limits {-1,0,1,2,3} and every item-length vector, against the Range contract (ascending non-adjacent ranges, union exactly a prefix of the missing chunks, count bound, range index, string = list). The contract then judges the real code: real files get validity vectors poked in (all vectors of small files; a 6000-chunk table with patterns chosen so that items end exactly at the 32768/49152-byte buffer capacities), and every (ranges, count, range index, rendered string parsed back) is validated by TLC through Trace_Range. One open finding (zero-length missing chunk -> inverted range) is a named deviation whose prediction is the transcription of the pinned code.",
+   note="Trusted: TLC, Range.tla, the reference parser for chunk tables, a strict Python parser of the rendered string, the witness (containing range per chunk) being checked not trusted. Not decided: tables beyond ~6000 chunks; limits other than the listed ones."),
 }
 
 def entry(pid, c):
